@@ -186,3 +186,12 @@ def x14(cx: Cx, ob: Ob) -> None:
     from .c02 import check_identifier_hook
 
     check_identifier_hook(cx, ob)
+
+
+@obligation("C03-X16", "incremental construction (shared with C05-D3/D5/D6): add_record rejects a record that matches several existing records and never merges into an arbitrary one; _match_record / _merge compare and add by exact membership (compress and expand stay inverse on prefix-free maps built incrementally)", floor=8)
+def x16(cx: Cx, ob: Ob) -> None:
+    from .c05 import check_match_record, check_merge, d3 as add_record_guards
+
+    check_match_record(cx, ob)
+    check_merge(cx, ob)
+    add_record_guards(cx, ob)
